@@ -251,7 +251,7 @@ def c06_targets(ctx, prog):
         res, F, I = run(ctx, prog, f)
         seen = set()
         for e in ev_of(res, ("kill",)):
-            kind, fn, node, info, st, stack = e
+            kind, fn, node, info, st, stack = e[:6]
             pidv, sigv = info
             key = (fn.name, node["id"], show(pidv), st.mon.get("shape"))
             if key in seen:
@@ -265,7 +265,7 @@ def c06_targets(ctx, prog):
                    {"pid": show(pidv), "signal": sigc, "child": st.res.get(A.PID), "shape": st.mon.get("shape")}, nontrivial=True)
             nk += 1
         for e in ev_of(res, ("waitpid",)):
-            kind, fn, node, info, st, stack = e
+            kind, fn, node, info, st, stack = e[:6]
             pidv, optv = info
             key = (fn.name, node["id"], show(pidv), st.mon.get("shape"))
             if key in seen:
